@@ -32,7 +32,7 @@ SPEC = dict(
                 "on the node list, invariant: states and buffers agree off the fresh ids); sched_refines_denot — a partitioned "
                 "schedule (subgraphs in order, each running its operators in its own order, handoffs = buffers) computes the flat "
                 "program's outputs for every partition whose flattened order is a topological order of the same nodes, hence "
-                "partition_independent. Tie: ~335 compiled pairs: ~200 (original, perturbed by 1-3 random stage insertions) and 133 "
+                "partition_independent. Tie: ~350 compiled pairs: ~200 (original, perturbed by 1-3 random stage insertions) and 133 "
                 "systematic ones (every two-input operator of the catalogue, and partition / unzip, x each input resp. output port x "
                 "{unary tee, unary union with [0] port, unary union with elided port, a chain of two} directly at that port) of "
                 "dfir_syntax! programs covering the operator catalogue, run on the same generated inputs; the original is diffed "
@@ -40,7 +40,10 @@ SPEC = dict(
                 "(`perturbNodes`, the function the theorem is about); for every original the partition the real compiler chose "
                 "(subgraph_toposort of build_dfir_code, mapped to the model's nodes) is checked by the driver to be a well-formed "
                 "schedule (the hypothesis of sched_refines_denot, decided by wfFromB) and the ticks are then evaluated subgraph by "
-                "subgraph; oracle on the real code: original == variant per tick and sink, and compile-or-not agreement of every "
+                "subgraph; oracle on the real code: original == variant per tick and sink (plus, because unstable sorts make some sinks "
+                "bags: sort / sort_by_key outputs of original AND variant are in key order on the raw sequence, and 15 pairs that move "
+                "a sort_by_key whose key disagrees with the item order between the pull and the push side give the exact documented "
+                "sequence), the port wiring of every operator input of original and variant, and compile-or-not agreement of every "
                 "pair through the real dfir_lang pipeline (parse, flat graph, partition, code generation) plus hand-written "
                 "same-tick-cycle pairs that must be rejected alike. Refuted clause: fused_shortcircuit_shape_dependent_refuted "
                 "(F221) with the fused code path transcribed as model operators and reproduced on the real code."),
